@@ -477,17 +477,23 @@ func zzC08GreaseECH() {
 
 //verif:harness C08 grease_ech_write unwind=300
 //verif:expect end
-//verif:doc GREASE-ECH Write on the body of a well-formed outer ECH extension (valid kdf/aead, enc 1..2 bytes, payload of every length 1..20): re-encoding keeps type, suite, config-id sizes, enc length and payload length (bytes are regenerated), never a wrapped length.
-func zzC08GreaseECHWrite() {
-	kdf := uint16(1 + verifChoice("kdf", 3))
-	aead := uint16(1 + verifChoice("aead", 3))
+//verif:doc GREASE-ECH Write on the body of a well-formed outer ECH extension (KDF and AEAD ids ARBITRARY 16-bit values, enc 1..2 bytes, payload of every length 1..20): an id the extension cannot represent is refused with an error, never a panic; otherwise: re-encoding keeps type, suite, config-id sizes, enc length and payload length (bytes are regenerated), never a wrapped length.
+func zzC08GreaseECHWrite() { zzGreaseECHWriteBody() }
+
+func zzGreaseECHWriteBody() {
+	// KDF and AEAD ids are arbitrary 16-bit values: the decoder must refuse the
+	// ones it cannot represent with an error (never a panic, never a mangled copy)
+	kdf := verifU16("kdf")
+	aead := verifU16("aead")
 	cfg := verifU8("cfg")
 	el := 1 + verifChoice("enclen", 2)
 	enc := verifBytes("enc", el)
 	pl := 1 + verifChoice("paylen", 20)
 	pay := verifBytes("pay", pl)
 	body := zzCat([]byte{0}, zzU16(kdf), zzU16(aead), []byte{cfg}, zzVec16(enc), zzVec16(pay))
-	verifAssert(zzRefCheckExtBody(0xfe0d, body) == "", "input-is-valid-outer-ech")
+	if kdf >= 1 && kdf <= 3 && aead >= 1 && aead <= 3 {
+		verifAssert(zzRefCheckExtBody(0xfe0d, body) == "", "input-is-valid-outer-ech")
+	}
 	g := &GREASEEncryptedClientHelloExtension{}
 	n, err := g.Write(body)
 	if err != nil {
